@@ -63,12 +63,12 @@ CHECKS = {
         "harness's reference to a component or model), variables in components, units in models (incl. replaceUnits x3, model destruction), resets in components (incl. "
         'setVariable/setTestVariable, which change structural equality), equivalences on 4 variables (both orders, self-pairs), equivalence ids on 3 variables (2- and '
         '4-argument addEquivalence, set/remove mapping and connection ids, hidden id maps in the state key), equivalence lifetime (variables removed from components, '
-        'references to variables/components/model dropped). All run to the fixpoint of their canonical state space (quick: 7 machines, about 1.4e4 states / 7.6e5 '
+        'references to variables/components/model dropped; the number of expired weak entries a variable still carries is part of the state key). After EVERY transition of the equivalence machines every query of the equivalence API (hasEquivalentVariable direct and indirect, id getters, equivalentVariable(i) up to count, count+0 and SIZE_MAX) is asked on every live variable with null, a never-connected variable and every live variable as argument and compared with the reference graph; add/removeEquivalence and the id setters with a null / never-connected partner are transitions that must be refused and change nothing. All run to the fixpoint of their canonical state space (quick: 7 machines, about 1.3e4 states / 7.2e5 '
         'transitions; thorough adds the full reset alphabet and a 4-variable lifetime machine bounded at depth 6). Invariants in every state: every listed child reports '
         'its container as parent, nothing listed twice or by two containers, hierarchy acyclic, equivalence symmetric, equivalentVariable(i) non-null below the count, ids '
-        'symmetric. (b) 280 entry points of the object model, Annotator, Importer, Analyser, AnalyserExternalVariable, AnalyserModel/Variable/Equation, Generator, Printer, '
+        'symmetric. (b) 281 entry points of the object model, Annotator, Importer, Analyser, AnalyserExternalVariable, AnalyserModel/Variable/Equation, Generator, Printer, '
         'Validator, Parser and Logger, each with every applicable argument class {null, never added, owner destroyed, index == count, SIZE_MAX, unknown name, empty name} '
-        'and receiver state {fresh, populated, owner destroyed}: must not crash; target roles must be refused (false/null/empty/issue) and leave the canonical state of '
+        'and receiver state {fresh, populated, owner destroyed; for variables also: equivalent variable destroyed, expired entry still held}: must not crash; target roles must be refused (false/null/empty/issue) and leave the canonical state of '
         'every reachable object unchanged.',
    note='Trusted: the reference models in harness/c09*.hpp (vectors + parent map + held flags; structural equality recomputed independently), observation through public '
         'getters plus weak_ptr liveness (hidden id maps read through the pimpl only for the state key), ASan/UBSan and fork isolation as crash oracle. Limits: universes of 3 '
@@ -82,7 +82,8 @@ CHECKS = {
         '{every covered attribute altered / emptied, every child removed / added as copy of a sibling / added fresh, at every depth} + {0,1,2,3 identical children} + {same content with a '
         'parent / equivalences / order-presence flag / own units objects: must stay equal} + {empty entity, null} (quick: 212/159/41/64/64/8 members). equals(a,b) is called for ALL ordered '
         'pairs (against an independently built twin and inside one build incl. a->equals(a)) and compared with reference equality; transitivity is checked on ALL triples (real calls, memoised per '
-        'process; determinism checked on every pair); all kinds are also compared with each other (look-alike name/id). Thorough adds every double mutation of the depth-2 bases against base and '
+        'process; determinism checked on every pair); all kinds are also compared with each other (look-alike name/id). Every pool is also built a second time with an alias registry (every content-equal import source, own units object of a variable and free-standing reset variable is ONE shared '
+        'instance across the pool) and all ordered pairs are judged again (pairs-shared; thorough: pairs2-shared). Thorough adds every double mutation of the depth-2 bases against base and '
         'all single mutants in both directions (34 M pairs). Unit exponents/multipliers only take identical or clearly different values (carve-out of the statement).',
    note='Trusted: the canonical dump through public getters (harness/c10c11.hpp; never calls equals()), the JSON->API builder, ASan/UBSan. The classifier that names a mismatch '
         '(receiver-strictly-fewer / set-not-multiset) only chooses the signature; every mismatch is reported. Pools come from one base per kind (two for units): content shapes outside '
@@ -97,7 +98,8 @@ CHECKS = {
         'the alphabet (all setters on every reachable sub-entity, add/remove of every child kind, equivalence add/remove/ids, import source url/id through the entity, ~50-250 per entity) is '
         'applied to a fresh original and to a fresh clone and the other side must be unchanged (0.4 M mutations quick). A reset-link grid (2 shapes x variable in {own, sibling, child, no component, null} x test_variable in the same five x order set/unset = 100 models) gets the same oracle and mutation phase, '
         'plus: a link to a variable of the reset\'s own component must be re-targeted to the clone\'s variable at the same position. An import-sharing grid (imported component with an imported child / grandchild below a local child / sibling, with or without imported units, every partition of these entities into shared '
-        'import-source objects: 21 models, API-built and parsed) adds: the sharing partition of import sources is the same in original and clone. A further family clones models with an equivalence to a variable outside '
+        'import-source objects: 21 models, API-built and parsed) adds: the sharing partition of import sources is the same in original and clone. A twins grid (122 models, API-built and parsed: content-equal sibling components / variables / units / resets with equivalences, resets and shared import sources on the first, '
+        'the later or both twins) gets the same oracle. A further family clones models with an equivalence to a variable outside '
         'the model (no crash, own equivalences unchanged).',
    note='Trusted: canonical dumps (common.hpp, c10c11.hpp), the JSON->API builder, the repository printer/parser for the parsed origin and the printed-form comparison, ASan/UBSan. Known field '
         'losses are repaired on the clone from outside before the whole-object comparisons so that other differences still surface. The mutation phase of the parsed origin runs without ASan. Only one '
@@ -120,7 +122,10 @@ CHECKS = {
         'each witness is replayed on real Variables placed at the colliding addresses (harness-owned operator new + mmap(MAP_FIXED_NOREPLACE)), connected/unconnected both ways, '
         'both component and query orders, on the analysed model and on a fresh analyser model; the key the real code stored in mCachedEquivalentVariables is compared with K on every witness, '
         'on 141 spread addresses and on 1024 / 2048 consecutive objects per base (all pairs). If the code is keyed differently the evidence says model_bound:false and the verdict rests on '
-        'the end-to-end replays and all-pairs correctness + observed-key injectivity on those address sets.',
+        'the end-to-end replays and all-pairs correctness + observed-key injectivity on those address sets.'
+        ' (c) histories: breadth-first search over all API histories up to depth 6 / 8 on 3 variables and 4 / 5 on 4 variables that interleave addEquivalence (with and without ids), removeEquivalence, '
+        'removeAllEquivalences with set/remove mapping and connection id on direct, indirect and unconnected pairs (both argument orders), de-duplicated by observable state + private id-map entries; in every reached state '
+        'both query functions (fresh analysis) and both id getters are judged: identifiers are decorations that never change connectivity, and a pair that is not linked has the id "".',
    note='Trusted: union-find reference, the placement allocator (an address is only used when the kernel maps exactly that page), glibc/ASan allocators for part (a), the one-line key model (only used to FIND '
         'candidate addresses; every verdict is an answer of the real code). Windows are a finite list of bases, each explored exhaustively; absence of collisions elsewhere is claimed only '
         'structurally (observed key = ordered address pair). Address-dependent wrong answers in part (a) would depend on the allocator layout and are not replayable; part (b) owns them.'),
@@ -161,8 +166,8 @@ CHECKS = {
    text='rules: 132 ReferenceRule values x 3 levels on issues built through Issue::IssueImpl; anyelement: 16 type values x 21 stored-object kinds x 8 accessors; explain: ~125 failing scenarios (parser, importer, annotator, '
         'analyser; strict and permissive); imports: every ordered list of <= 2 (quick) / <= 3 (thorough) imports, each component|units x {valid, CellML 1.1, related/unrelated errors, warnings, not XML, empty, missing, '
         'missing target, nested, cyclic, missing units} x strict/permissive, resolved from disk and again from the library, flattened, analysed; corpus: ~890 single deviations (delete/duplicate/rename/empty element; '
-        'delete/rename/empty/garbage/copy-sibling attribute) of 4 seeds x 2 modes through parser, validator, printer(+autoIds), analyser, importer, annotator. After every call: counts add up, per-level accessors enumerate '
-        'issue(i) in order, out-of-range indices null, description/level/rule/heading/url/item coherent; failing results have issues.',
+        'delete/rename/empty/garbage/copy-sibling attribute) of 4 seeds x 2 modes through parser, validator, printer(+autoIds), analyser, importer, annotator. attrgrid: 1787 documents (every element kind of a 2.0 and a 1.1 base, component_ref at three levels) x attribute position x {unknown, foreign-/CellML-namespace duplicate, missing, unresolvable (+unknown at every position)} x 2 parser modes. After every call: counts add up, per-level accessors enumerate '
+        'issue(i) in order, out-of-range indices null, description/level/rule/heading/url/item coherent (a typed item holds an existing object of its kind); failing results have issues.',
    note='Trusted: the checker in harness/common.hpp (written from the statement; reads the stored std::any through -fno-access-control), the harness\'s reading of "fails". Not claimed: documents more than one deviation away from '
         'the seeds; whether an import should have succeeded (C07). Crashes found by the corpus belong to C01 and are listed as known findings.'),
  'C12': dict(level='model_checking', ref='3/C12',
@@ -175,7 +180,7 @@ CHECKS = {
         'Every history (mixed-radix index) runs once in a forked child of a pristine process and is followed by EVERY operation in a forked grandchild. Judged per (history, probe): '
         'raw model dump (raw math strings) / text / issue list with descriptions equal to the fresh-process observation; argument model unchanged; second call on the same instance '
         'observes the same; every model, issue and AnalyserModel returned earlier dumps as when returned (AnalyserModel dump = variables, equations and every equation AST node with the consistency of its parent link); Analyser::model() exposes only the model just analysed. '
-        'Quick: 757 histories x 27 probes (+28 under ASan); thorough: 20440 x 27. BFS over global-state tuples runs to closure (7 states, 182 transitions), two histories with the same '
+        'Quick: 757 histories x 27 probes (+28 under ASan); thorough: 20440 x 27. Conflicting-twin family: a second alphabet of 32 operations = 16 parser/service calls on a document and on its conflicting twin (every name kept, every meaning changed: units definitions, variable units / initial values, moved ids, import references, imported file content under the same url, numbers in the math), all histories of length <= 1 (quick: 66 cases x 32 probes) / <= 2 (thorough: 2114 x 32) on one set of service instances, each in two modes (caller keeps / destroys every model and result after each call; the destroying mode also under ASan), all issue levels compared with a fresh process. BFS over global-state tuples runs to closure (7 states, 182 transitions), two histories with the same '
         'tuple but different observations are reported as harness abstraction errors (exit 2). Complete for the stated bound; nothing is sampled.',
    note='Trusted: the canonical dumps in harness/common.hpp + c12.cpp (public getters), fork() isolation, dlsym/ELF-symtab reads of the globals (no libxml2 accessor is called), libxml2 itself. '
         'The known blank-handling leak is filtered by a CAUSAL predicate only: the finding must vanish when xmlKeepBlanksDefaultValue is put back to its fresh value after every library '
@@ -184,7 +189,7 @@ CHECKS = {
    technique='bounded-exhaustive enumeration of model specs (forests x connection subsets x listing orders x id patterns; units; resets; imports; math) and of awkward '
              'texts in every string attribute position, judged by an independent canonical dump and by a second, hand-written renderer of the same spec',
    text='Every spec of harness/modelspec.hpp is taken through API build -> validator -> own XML rendering read by the strict parser (must equal the API-built model) -> '
-        'print -> independent well-formedness -> strict parse (same canonical content; no parser issue if the validator accepted the model) -> print -> parse (same content). '
+        'print -> independent well-formedness -> strict parse (same canonical content; no parser issue if the validator accepted the model) -> print -> parse (same content); the printed text is then read back by four further strict parsers with a history (already read this document / read a CellML 1.1 document permissively / read non-XML and an error-ridden document / all of these plus the two neighbouring cases' documents) and printed by a printer that has printed another model - same content, same number of issues as a fresh parser (all families; in the quick tier all but h-q). '
         'Quick: all labelled rooted forests on <= 3 components x 1|2 variables x every subset of <= 2 admissible variable pairs x every listing order x both orientations x 5 '
         'id patterns x 2 name orders (29 736), variable attribute product (120), units definitions (6 698: all (reference,prefix,exponent,multiplier) combinations for <= 2 unit '
         'children, every acyclic 2- and 3-definition reference structure in every listing order), resets (65), imports (346), imported components at every position of every labelled forest on <= 4 components x every import mask x with/without imported units x own/shared source x ids (14 866; thorough <= 5 components, 323 314), math blocks x prefix declaration place (15), and '
